@@ -14,7 +14,9 @@ from vk.ref import refcodec
 LEVEL = "exploration"
 RULE = ("all 63 non-empty route tables over {S6a, Gx} x {316, 317, 272} x all histories of <= 2 requests "
         "(quick) over (registered pair x 6 handler outcomes); thorough: histories of <= 3 on every table with "
-        "<= 2 routes and on the full table. A case is one history on one route table; distinct by "
+        "<= 2 routes and on the full table; plus every builtin Exception subclass (and queue.Empty, a user-defined "
+        "one) x 7 argument shapes {(), text, format-like text, bytes, None, two values, empty tuple} as handler "
+        "outcome on two tables. A case is one history on one route table; distinct by "
         "construction; non-trivial = histories with at least one non-answer outcome or >= 2 requests")
 ASSUMPTIONS = [
     "in-process Worker with a stand-in manager (vk/inproc.py); dispatch runs sequentially here, the "
@@ -32,6 +34,46 @@ S6A, GX = 16777251, 16777238
 PAIRS = [(S6A, 316), (S6A, 317), (S6A, 272), (GX, 316), (GX, 317), (GX, 272)]
 APP_SHORT = {S6A: "s6a", GX: "gx"}
 OUTCOMES = ["answer", "none", "string", "request", "value-error", "key-error"]
+
+
+EXC_ARGS = [(), ("handler failed",), ("{0} {x} %s %d {",), (b"\xff\xfe",), (None,), ("a", 2), ((),)]
+
+
+class HandlerFailure(Exception):
+    """A user-defined exception whose text is empty."""
+    def __str__(self):
+        return ""
+
+
+def exception_classes():
+    """Every 'standard exception' a handler can raise: the builtin Exception subclasses (BaseException-only
+    classes are outside the statement), queue.Empty and a user-defined subclass."""
+    import builtins
+    import queue
+    out = {}
+    for name in sorted(dir(builtins)):
+        obj = getattr(builtins, name)
+        if isinstance(obj, type) and issubclass(obj, Exception):
+            out[obj.__name__] = obj
+    out["Empty"] = queue.Empty
+    out["HandlerFailure"] = HandlerFailure
+    return out
+
+
+def exception_outcomes():
+    out = []
+    for name, cls in exception_classes().items():
+        for i, args in enumerate(EXC_ARGS):
+            try:
+                cls(*args)
+            except Exception:  # noqa  (e.g. UnicodeDecodeError needs five arguments)
+                continue
+            out.append(f"exc:{name}:{i}")
+    return out
+
+
+def sig_outcome(outcome):
+    return f"exception-args{outcome.rsplit(':', 1)[1]}" if outcome.startswith("exc:") else outcome
 
 
 class Recorder:
@@ -59,6 +101,9 @@ def make_handler(rec, pair, outcome_of):
             raise ValueError("handler failed")
         if outcome == "key-error":
             raise KeyError("handler failed")
+        if outcome.startswith("exc:"):
+            _x, name, i = outcome.split(":")
+            raise exception_classes()[name](*EXC_ARGS[int(i)])
         raise AssertionError(outcome)
     handler.__name__ = f"route_{pair[0]}_{pair[1]}"
     return handler
@@ -115,6 +160,7 @@ def _run_history_on(rep, table, history, ctx, _unused):
     tsig = f"routes{len(table)}"
     for idx, (pair, outcome) in enumerate(history):
         current["outcome"] = outcome
+        osig = sig_outcome(outcome)
         rec.calls.clear()
         req = make_request(pair, idx)
         raised = None
@@ -123,7 +169,7 @@ def _run_history_on(rep, table, history, ctx, _unused):
         except BromeliaException as e:
             raised = e
         except BaseException as e:  # noqa
-            rep.violation(f"C13:dispatch-raises-{type(e).__name__}:{outcome}",
+            rep.violation(f"C13:dispatch-raises-{type(e).__name__}:{osig}",
                           f"callback_route raised {type(e).__name__}: {e} (step {idx}, {pair}, {outcome})", wit)
             for w in workers.values():
                 inproc.drain(w)
@@ -134,17 +180,17 @@ def _run_history_on(rep, table, history, ctx, _unused):
         sent = {short: inproc.drain(w) for short, w in workers.items()}
         own, other = APP_SHORT[pair[0]], [s for s in workers if s != APP_SHORT[pair[0]]][0]
         if sent[other]:
-            rep.violation(f"C13:answer-on-other-application:{outcome}",
+            rep.violation(f"C13:answer-on-other-application:{osig}",
                           f"{len(sent[other])} message(s) queued on the {other} worker for a {own} request", wit)
         if len(sent[own]) != 1:
-            rep.violation(f"C13:{len(sent[own])}-answers:{outcome}",
+            rep.violation(f"C13:{len(sent[own])}-answers:{osig}",
                           f"{len(sent[own])} answers sent for one request (outcome {outcome}, step {idx})", wit)
             continue
         ans = sent[own][0]
         try:
             dec = refcodec.dec_msgs(ans.dump())[0]
         except BaseException as e:  # noqa
-            rep.violation(f"C13:answer-undumpable:{outcome}", f"{type(e).__name__}: {e}", wit)
+            rep.violation(f"C13:answer-undumpable:{osig}", f"{type(e).__name__}: {e}", wit)
             continue
         version, flags, code, appid, hbh, e2e, avps = dec
         errs = []
@@ -177,7 +223,7 @@ def _run_history_on(rep, table, history, ctx, _unused):
         if ans.header.get_length() != len(ans.dump()):
             errs.append(("message-length", "Message Length differs from the serialised size"))
         for k, text in dict(errs).items():
-            rep.violation(f"C13:{k}:{outcome}", f"step {idx} {pair} {outcome}: {text}", wit)
+            rep.violation(f"C13:{k}:{osig}", f"step {idx} {pair} {outcome}: {text}", wit)
 
 
 def tables():
@@ -230,11 +276,26 @@ def run(report, tier, seed):
         steps = [(p, o) for p in full for o in OUTCOMES]
         for first in steps:
             shards.append(("full3", first))
+    # every standard exception class x argument shape, as first request of a history (followed by a normal one)
+    excs = exception_outcomes()
+    for i in range(0, len(excs), 40):
+        shards.append(("exceptions", excs[i:i + 40]))
     core.run_shards(report, _dispatch, shards)
-    return {"route_tables": len(all_tables)}
+    return {"route_tables": len(all_tables), "exception_outcomes": len(excs)}
 
 
 def _dispatch(rep, arg):
+    if arg[0] == "exceptions":
+        n = 0
+        for table in (((S6A, 316),), ((S6A, 316), (GX, 272))):
+            ctx, earlier = fresh_app(table), []
+            for o in arg[1]:
+                for h in (((table[0], o),), ((table[-1], o), (table[0], "answer"))):
+                    run_history(rep, table, h, ctx, earlier)
+                    earlier.append(h)
+                    n += 1
+        rep.add(evaluations=n, distinct=n, histories=n)
+        return
     if arg[0] == "full3":
         first = arg[1]
         full = tuple(PAIRS)
